@@ -1806,13 +1806,503 @@ def run_trotter_deriv(inp):
     return [tie, orc] + ([ham_case] if ham_case else [])
 
 
+# ============================================================================================= extension xh07: Fermi–Hubbard generators
+# (theorems `p_gate_generators`, `cp_gate_generators`, `cnot_ladder_conjugation`, `hopping_block_unitary`, `hubbard1d_step_generators`,
+#  `hubbard2d_step_generators`, `jordan_wigner_image`, `hubbard_hamiltonian_is_jordan_wigner`, `hubbard1d_step_consistent`, … of
+#  Props/C07.lean; model `Model/TrotterHubbard.lean`, lemma files Lemmas/TrotterKron|TrotterHubbardGates|TrotterHubbard.lean)
+#
+# kind `hubgens`   one REAL sub-step of create_1d / create_2d_fermi_hubbard_circuit (first len/n gates of the real circuit):
+#   trace tie  hubbard-gens-*     every real gate / hopping block read as generators (p -> (1, -θ/2), (Z, θ/2); cp -> four; rxx/ryy -> one;
+#                                 the block  B(i) B(j) cx(j-1,j)…cx(i,j) rz_j(α) cx… B†(i) B†(j)  -> (P_i Z…Z P_j, α/2)) in circuit order vs the
+#                                 model's `fh1dGens` / `fh2dGens` (driver `fhgens`): the list `hubbard?d_step_generators` talks about
+#              hubbard-merged-*   the same generators summed per Pauli string vs the model (driver `fhmerged`)
+#   oracle     hubbard-gens-*     (a) the product of exp(-i c P) over the generators read off the real gates IS the unitary of the real
+#                                 sub-step (qiskit `Operator`) — validates the reading, and is `circMat = stepUnitary` on the real code;
+#                                 (b) they sum to (dt/n)·H with H the Jordan–Wigner matrix built INDEPENDENTLY from fermionic operators
+# kind `hubderiv`  `trotter-deriv` for the two Hubbard builders with that independent H_JW as the dense reference (sizes 1-D L = 1..3,
+#                  2-D up to 2x2 / 3x1 / 1x3): hubbard-deriv-step-* (gate-list tie), hubbard-deriv-* (derivative of the real one-step
+#                  unitary at dt = 0 is -i H_JW; N-step circuit = power; N-step error shrinks), and
+#   spec tie   hubbard-terms-*    the Pauli decomposition of that H_JW vs the model's `hubbard1dTerms` / `hubbard2dTerms` (driver `fhterms`)
+# kind `hubhop`    the hopping block for distances 1..5: qiskit `Operator` of the REAL `add_hopping_term` / `add_long_range_interaction`
+#                  output vs exp(-i α/2 XZ…ZX)·exp(-i α/2 YZ…ZY) resp. exp(-i α/2 PZ…ZP) (oracle hubbard-hop / hubbard-lri) and the
+#                  generators read off its gate list vs the model (`hopgens`, `lrigen`; incl. the IndexError branch)
+# spec tie         qiskit's p / cp / cx / ry(±π/2) / rx(±π/2) matrices and qubit order = the explicit Kronecker forms of `gateMat`
+
+XH_KINDS = {"hubgens", "hubderiv", "hubhop", "hubgatespec"}
+XHSPEC = {"n": 0, "bad": 0, "worst": 0.0, "detail": ""}
+XH_OBS = {"unitary": 0.0, "gensum": 0.0, "hop": 0.0, "car": 0.0}
+SIGMA_MINUS = np.array([[0, 1], [0, 0]], dtype=complex)   # |0><1| : annihilates the occupied state |1>, n = (1 - Z)/2
+
+
+def gen_xh(rng, tier):
+    quick = tier == "quick"
+
+    def sub():
+        return rng.randrange(1 << 30)
+
+    yield {"kind": "hubgatespec", "sub": sub()}
+    for _rep in range(1 if quick else 3):
+        for L in (1, 2, 3):
+            yield {"kind": "hubderiv", "builder": "fh1d", "L": L, "sub": sub()}
+        for (lx, ly) in [(1, 1), (2, 1), (1, 2), (3, 1), (1, 3), (2, 2)]:
+            yield {"kind": "hubderiv", "builder": "fh2d", "Lx": lx, "Ly": ly, "sub": sub()}
+        for L in (1, 2, 3, 4):
+            for n in (1, 2):
+                yield {"kind": "hubgens", "builder": "fh1d", "L": L, "n": n, "sub": sub()}
+        for (lx, ly) in [(1, 1), (2, 1), (1, 2), (3, 1), (1, 3), (2, 2), (4, 1)]:
+            yield {"kind": "hubgens", "builder": "fh2d", "Lx": lx, "Ly": ly, "n": rng.choice([1, 2, 3]), "sub": sub()}
+        for d in (1, 2, 3, 4, 5):
+            for _ in range(2 if quick else 6):
+                yield {"kind": "hubhop", "d": d, "sub": sub()}
+        for _ in range(4):
+            yield {"kind": "hubhop", "d": -rng.randrange(0, 3), "sub": sub()}
+
+
+def kron_le(ops: dict, n: int) -> np.ndarray:
+    """qiskit convention (qubit 0 least significant) for arbitrary one-qubit matrices"""
+    m = np.eye(1, dtype=complex)
+    for q in range(n - 1, -1, -1):
+        m = np.kron(m, ops.get(q, PAULI["I"]))
+    return m
+
+
+def jw_annihilators(n):
+    """c_q = Z_0 … Z_{q-1} σ⁻_q for q = 0..n-1 (Jordan–Wigner order = qubit order), as dense matrices in qiskit's qubit order"""
+    out = []
+    for q in range(n):
+        ops = {k: PAULI["Z"] for k in range(q)}
+        ops[q] = SIGMA_MINUS
+        out.append(kron_le(ops, n))
+    return out
+
+
+def jw_hubbard(n, up, dn, sites, bonds, u, t, mu):
+    """H = -t Σ_{<pq>σ} (c†_{pσ} c_{qσ} + h.c.) + u Σ_p n_{p↑} n_{p↓} - μ Σ_{pσ} n_{pσ} from fermionic operators only"""
+    c = jw_annihilators(n)
+    cd = [x.conj().T for x in c]
+    # the operators are fermionic modes (checked, recorded)
+    worst = 0.0
+    eye = np.eye(2**n)
+    for p in range(n):
+        for q in range(n):
+            worst = max(worst, float(np.abs(c[p] @ cd[q] + cd[q] @ c[p] - (eye if p == q else 0)).max()),
+                        float(np.abs(c[p] @ c[q] + c[q] @ c[p]).max()))
+    XH_OBS["car"] = max(XH_OBS["car"], worst)
+    num = [cd[q] @ c[q] for q in range(n)]
+    H = np.zeros((2**n, 2**n), dtype=complex)
+    for (p, q) in bonds:
+        for layout in (up, dn):
+            a, b = layout(p), layout(q)
+            H += -t * (cd[a] @ c[b] + cd[b] @ c[a])
+    for p in sites:
+        H += u * (num[up(p)] @ num[dn(p)])
+        H += -mu * (num[up(p)] + num[dn(p)])
+    return H
+
+
+def jw_h_1d(L, u, t, mu):
+    return jw_hubbard(2 * L, lambda j: j, lambda j: L + j, range(L), [(j, j + 1) for j in range(L - 1)], u, t, mu)
+
+
+def lattice_bonds(Lx, Ly):
+    bonds = []
+    for y in range(Ly):
+        for x in range(Lx):
+            p = y * Lx + x
+            if x + 1 < Lx:
+                bonds.append((p, p + 1))
+            if y + 1 < Ly:
+                bonds.append((p, p + Lx))
+    return bonds
+
+
+def jw_h_2d(Lx, Ly, u, t, mu):
+    bonds = lattice_bonds(Lx, Ly)
+    return jw_hubbard(2 * Lx * Ly, lambda p: 2 * p, lambda p: 2 * p + 1, range(Lx * Ly), bonds, u, t, mu), bonds
+
+
+def pauli_decompose(M, n, tol=1e-13):
+    """{string: coefficient} with M = Σ coeff · P, string[k] = Pauli label on qubit k; M in qiskit order (qubit n-1 most significant)"""
+    out = {}
+
+    def rec(block, q, suffix):
+        if float(np.abs(block).max()) <= tol:
+            return
+        if q < 0:
+            out[suffix] = complex(block[0, 0])
+            return
+        h = block.shape[0] // 2
+        A, B, C, D = block[:h, :h], block[:h, h:], block[h:, :h], block[h:, h:]
+        rec((A + D) / 2, q - 1, "I" + suffix)
+        rec((A - D) / 2, q - 1, "Z" + suffix)
+        rec((B + C) / 2, q - 1, "X" + suffix)
+        rec(1j * (B - C) / 2, q - 1, "Y" + suffix)
+
+    rec(np.asarray(M, dtype=complex), n - 1, "")
+    return out
+
+
+def string_matrix(s):
+    """dense matrix (qiskit order) of the Pauli string s, s[k] on qubit k"""
+    return pauli_le({k: o for k, o in enumerate(s) if o != "I"}, len(s))
+
+
+def exp_pauli(s, c):
+    """exp(-i c P) for the Pauli string s"""
+    P = string_matrix(s)
+    return math.cos(c) * np.eye(P.shape[0], dtype=complex) - 1j * math.sin(c) * P
+
+
+def zstr(n, qs):
+    return "".join("Z" if k in qs else "I" for k in range(n))
+
+
+def hopstr(n, i, j, o):
+    return "".join(o if k in (i, j) else ("Z" if i < k < j else "I") for k in range(n))
+
+
+def read_generators(circ, data=None):
+    """[(string, c)] in circuit order with every gate / hopping block of the REAL circuit read as exp(-i c P) factors.
+    Raises ValueError when a stretch of gates is not one of the shapes the library emits."""
+    n = circ.num_qubits
+    data = list(circ.data) if data is None else list(data)
+    qs_of = lambda inst: [circ.find_bit(q).index for q in inst.qubits]  # noqa: E731
+    out = []
+    k = 0
+    while k < len(data):
+        inst = data[k]
+        op = inst.operation
+        nm = op.name
+        qs = qs_of(inst)
+        if nm == "barrier":
+            k += 1
+            continue
+        if nm in ROT_AXES and not (nm in ("ry", "rx") and abs(abs(float(op.params[0])) - math.pi / 2) < 1e-15):
+            ax = ROT_AXES[nm]
+            if len(set(qs)) != len(qs):
+                raise ValueError("repeated qubit")
+            out.append(("".join(ax[qs.index(q)] if q in qs else "I" for q in range(n)), float(op.params[0]) / 2))
+            k += 1
+            continue
+        if nm == "p":
+            th = float(op.params[0])
+            out += [(zstr(n, []), -th / 2), (zstr(n, qs), th / 2)]
+            k += 1
+            continue
+        if nm == "cp":
+            th = float(op.params[0])
+            a, b = qs
+            out += [(zstr(n, []), -th / 4), (zstr(n, [a]), th / 4), (zstr(n, [b]), th / 4), (zstr(n, [a, b]), -th / 4)]
+            k += 1
+            continue
+        if nm in ("ry", "rx"):
+            # basis change (+π/2 on i and j), ladder cx(k, j) k = j-1 … i, rz_j(α), ladder back, basis change back (-π/2)
+            def basis(idx, sign):
+                g = data[idx]
+                if g.operation.name != nm or float(g.operation.params[0]) != sign * math.pi / 2:
+                    raise ValueError(f"gate {idx}: expected {nm}({'+' if sign > 0 else '-'}pi/2)")
+                return qs_of(g)[0]
+            if k + 1 >= len(data):
+                raise ValueError("truncated block")
+            i, j = basis(k, 1), basis(k + 1, 1)
+            m = k + 2
+            down = []
+            while m < len(data) and data[m].operation.name == "cx":
+                down.append(tuple(qs_of(data[m])))
+                m += 1
+            if m >= len(data) or data[m].operation.name != "rz" or qs_of(data[m]) != [j]:
+                raise ValueError("block: rz on the target expected after the ladder")
+            alpha = float(data[m].operation.params[0])
+            m += 1
+            up_ = []
+            while m < len(data) and data[m].operation.name == "cx" and len(up_) < len(down):
+                up_.append(tuple(qs_of(data[m])))
+                m += 1
+            if not (i < j) or down != [(c, j) for c in range(j - 1, i - 1, -1)] or up_ != down[::-1]:
+                raise ValueError(f"block ({i},{j}): ladder {down} / {up_} is not cx(k, {j}) for k = {j - 1}..{i} and back")
+            if m + 1 >= len(data) or basis(m, -1) != i or basis(m + 1, -1) != j:
+                raise ValueError("block: closing basis change")
+            out.append((hopstr(n, i, j, "X" if nm == "ry" else "Y"), alpha / 2))
+            k = m + 2
+            continue
+        raise ValueError(f"gate {nm} is not a gate of the Hubbard builders")
+    return out
+
+
+def gens_tokens(gens):
+    return " ; ".join(f"{ib.fmt(c)} {s}" for s, c in gens) if gens else "empty"
+
+
+def merged_tokens(gens):
+    acc = {}
+    for s, c in gens:
+        acc[s] = acc.get(s, 0.0) + c
+    items = sorted((s, c) for s, c in acc.items() if c != 0.0)
+    return " ; ".join(f"{ib.fmt(c)} {s}" for s, c in items) if items else "empty"
+
+
+def hparam(rng):
+    """rational-friendly, zero, or generic; never so small that a merged coefficient is decided by rounding"""
+    r = rng.random()
+    if r < 0.3:
+        return rng.choice([1, 2, 3, 5, 7, -1, -3]) / rng.choice([1, 2, 4, 8])
+    if r < 0.4:
+        return 0.0
+    return rng.choice([-1, 1]) * rng.uniform(0.2, 1.5)
+
+
+def run_hubgens(inp):
+    rng = random.Random(inp["sub"])
+    b = inp["builder"]
+    n = inp["n"]
+    u, t, mu = hparam(rng), hparam(rng), hparam(rng)
+    dt = posparam(rng)
+    if b == "fh1d":
+        L = inp["L"]
+        nq = 2 * L
+        circ = cl.create_1d_fermi_hubbard_circuit(L, u, t, mu, n, dt, 1)
+        H = jw_h_1d(L, u, t, mu)
+        head = f"1d {L} {n}"
+        what = f"fermi_hubbard_1d(L={L}, n={n})"
+        sig = f"{b}:{L}:{n}"
+    else:
+        Lx, Ly = inp["Lx"], inp["Ly"]
+        nq = 2 * Lx * Ly
+        circ = cl.create_2d_fermi_hubbard_circuit(Lx, Ly, u, t, mu, n, dt, 1)
+        H, _ = jw_h_2d(Lx, Ly, u, t, mu)
+        head = f"2d {Lx} {Ly} {n}"
+        what = f"fermi_hubbard_2d(Lx={Lx}, Ly={Ly}, n={n})"
+        sig = f"{b}:{Lx}x{Ly}:{n}"
+    data = list(circ.data)
+    probs = []
+    if len(data) % n != 0:
+        probs.append(f"{what}: {len(data)} gates are not {n} equal sub-steps")
+    sub_data = data[: len(data) // n]
+    pars = ib.fracs([u, t, mu, dt])
+    try:
+        gens = read_generators(circ, sub_data)
+        impl_g, impl_m = gens_tokens(gens), merged_tokens(gens)
+    except ValueError as e:
+        gens = None
+        impl_g = impl_m = "unreadable: " + str(e).replace(" ", "_")
+    out = [{"req": f"fhgens {head} | {pars}", "impl": impl_g, "oracle": None, "kind": "hubbard-gens-" + b, "sig": "hubgens:" + sig,
+            "nontrivial": True},
+           {"req": f"fhmerged {head} | {pars}", "impl": impl_m, "oracle": None, "kind": "hubbard-merged-" + b, "sig": "hubmerged:" + sig,
+            "nontrivial": True}]
+    detail = ""
+    sub_c = QuantumCircuit(nq)
+    for inst in sub_data:
+        sub_c.append(inst.operation, [circ.find_bit(q).index for q in inst.qubits])
+    U = Operator(sub_c).data
+    if gens is None:
+        probs.append(f"{what}: a stretch of the real sub-step is none of p / cp / rxx / ryy / hopping block: {impl_g}")
+    else:
+        V = np.eye(2**nq, dtype=complex)
+        for s, c in gens:  # circuit order: later gates multiply from the left
+            V = exp_pauli(s, c) @ V
+        du = float(np.linalg.norm(U - V, 2))
+        XH_OBS["unitary"] = max(XH_OBS["unitary"], du)
+        if du > 1e-9:  # observed <= 4e-15
+            probs.append(f"{what} (u={u}, t={t}, mu={mu}, dt={dt}): the unitary of the real sub-step differs by {du:.3e} from the product of "
+                         f"exp(-i c P) over its gates read as generators")
+        G = np.zeros((2**nq, 2**nq), dtype=complex)
+        for s, c in gens:
+            G += c * string_matrix(s)
+        tau = dt / n
+        hn = float(np.linalg.norm(H, 2))
+        dg = float(np.linalg.norm(G - tau * H, 2))
+        XH_OBS["gensum"] = max(XH_OBS["gensum"], dg / (tau * (1 + hn)))
+        if dg > 1e-9 * tau * (1 + hn):  # observed <= 3e-16 relative
+            probs.append(f"{what} (u={u}, t={t}, mu={mu}, dt={dt}): the generators of one sub-step sum to an operator that differs from "
+                         f"(dt/n)·H_JW by {dg:.3e} (relative {dg / (tau * (1 + hn)):.3e}); H_JW = -t Σ(c†c + h.c.) + u Σ n↑n↓ - μ Σ n "
+                         f"built from Jordan–Wigner fermionic operators")
+        detail = f"|U - Π exp(-icP)| {du:.1e}, |Σ cP - τH_JW|/τ(1+|H|) {dg / (tau * (1 + hn)):.1e}, {len(gens)} generators"
+    # all n sub-steps of the real circuit are the same gate list
+    toks = [gate_tokens_of(circ, data[k * len(sub_data):(k + 1) * len(sub_data)]) for k in range(n)] if sub_data else []
+    if any(tk != toks[0] for tk in toks):
+        probs.append(f"{what}: the {n} sub-steps of the real circuit are not identical gate lists")
+    out.append({"req": None, "impl": None, "oracle": ok(probs, detail), "kind": "hubbard-gens-" + b, "sig": "hubgens-oracle:" + sig})
+    return out
+
+
+def gate_tokens_of(circ, data):
+    c = QuantumCircuit(circ.num_qubits)
+    for inst in data:
+        c.append(inst.operation, [circ.find_bit(q).index for q in inst.qubits])
+    return gate_tokens(c)
+
+
+def run_hubderiv(inp):
+    """`run_trotter_deriv` with the Jordan–Wigner matrix built from fermionic operators as the documented Hamiltonian, plus the tie of
+    the model's Pauli term list to the Pauli decomposition of that matrix"""
+    rng = random.Random(inp["sub"])
+    b = inp["builder"]
+    g = globals()
+    saved = (g["fh_h_1d"], g["fh_h_2d"])
+    g["fh_h_1d"], g["fh_h_2d"] = jw_h_1d, jw_h_2d
+    try:
+        res = run_trotter_deriv(dict(inp, kind="trotterderiv"))
+    finally:
+        g["fh_h_1d"], g["fh_h_2d"] = saved
+    out = []
+    for r in res:
+        r = dict(r)
+        r["kind"] = str(r["kind"]).replace("trotter-deriv", "hubbard-deriv")
+        r["sig"] = "jw:" + str(r.get("sig", ""))
+        if r.get("oracle") is not None:
+            r["oracle"] = dict(r["oracle"], detail="H = Jordan–Wigner matrix from fermionic operators; " + str(r["oracle"].get("detail", "")))
+        out.append(r)
+    # spec tie of the model's Hamiltonian: Pauli decomposition of H_JW (own parameters)
+    u, t, mu = hparam(rng), hparam(rng), hparam(rng)
+    if b == "fh1d":
+        L = inp["L"]
+        nq = 2 * L
+        H = jw_h_1d(L, u, t, mu)
+        Hdoc = fh_h_1d(L, u, t, mu)
+        req = f"fhterms 1d {L} | {ib.fracs([u, t, mu])}"
+        sig = f"fh1d:{L}"
+    else:
+        Lx, Ly = inp["Lx"], inp["Ly"]
+        nq = 2 * Lx * Ly
+        H, _ = jw_h_2d(Lx, Ly, u, t, mu)
+        Hdoc, _ = fh_h_2d(Lx, Ly, u, t, mu)
+        req = f"fhterms 2d {Lx} {Ly} | {ib.fracs([u, t, mu])}"
+        sig = f"fh2d:{Lx}x{Ly}"
+    dec = pauli_decompose(H, nq)
+    items = sorted(dec.items())
+    worst_im = max((abs(c.imag) for _, c in items), default=0.0)
+    impl = " ; ".join(f"{ib.fmt(c.real)} {s}" for s, c in items) if items else "empty"
+    # the docstring's Pauli form is the same operator (both references of the harness agree)
+    dd = float(np.linalg.norm(H - Hdoc, 2))
+    xh_spec(f"Jordan–Wigner matrix vs the docstring's Pauli form ({sig})", dd + worst_im, 1e-10)
+    out.append({"req": req, "impl": impl, "oracle": None, "kind": "hubbard-terms-" + b, "sig": "hubterms:" + sig, "nontrivial": len(items) > 1})
+    return out
+
+
+def xh_spec(name, value, bound):
+    XHSPEC["n"] += 1
+    XHSPEC["worst"] = max(XHSPEC["worst"], value)
+    if value > bound:
+        XHSPEC["bad"] += 1
+        XHSPEC["detail"] = f"{name}: {value:.3e} exceeds {bound:.1e}"
+
+
+def run_hubhop(inp):
+    rng = random.Random(inp["sub"])
+    d = inp["d"]
+    out = []
+    alpha = hparam(rng) or 0.37
+    if d <= 0:  # error branch: i >= j
+        nq = rng.randrange(2, 6)
+        j = rng.randrange(0, nq)
+        i = min(nq - 1, j - d)
+        circ = QuantumCircuit(nq)
+        try:
+            cl.add_hopping_term(circ, i, j, alpha)
+            impl = gens_tokens(read_generators(circ))
+        except IndexError:
+            impl = "IndexError"
+        return [{"req": f"hopgens {nq} {i} {j} | {ib.frac(alpha)}", "impl": impl, "oracle": None, "kind": "hubbard-hop",
+                 "sig": f"hubhop:err:{i >= j}", "nontrivial": False}]
+    nq = d + 1 + rng.randrange(0, 3)
+    i = rng.randrange(0, nq - d)
+    j = i + d
+    # --- add_hopping_term ---
+    circ = QuantumCircuit(nq)
+    cl.add_hopping_term(circ, i, j, alpha)
+    U = Operator(circ).data
+    ref = exp_pauli(hopstr(nq, i, j, "Y"), alpha / 2) @ exp_pauli(hopstr(nq, i, j, "X"), alpha / 2)
+    dev = float(np.linalg.norm(U - ref, 2))
+    XH_OBS["hop"] = max(XH_OBS["hop"], dev)
+    probs = []
+    if dev > 1e-9:  # observed <= 3e-15
+        probs.append(f"add_hopping_term(circ[{nq}], {i}, {j}, {alpha}): Operator differs from exp(-i a/2 XZ..ZX)·exp(-i a/2 YZ..ZY) by {dev:.3e} "
+                     f"(distance {d})")
+    try:
+        impl = gens_tokens(read_generators(circ))
+    except ValueError as e:
+        impl = "unreadable: " + str(e).replace(" ", "_")
+    out.append({"req": f"hopgens {nq} {i} {j} | {ib.frac(alpha)}", "impl": impl, "oracle": ok(probs, f"dev {dev:.1e}"), "kind": "hubbard-hop",
+                "sig": f"hubhop:{d}:{nq}", "nontrivial": True})
+    # --- add_long_range_interaction, both outer operators ---
+    for o in ("X", "Y"):
+        c2 = QuantumCircuit(nq)
+        cl.add_long_range_interaction(c2, i, j, o if rng.random() < 0.5 else o.lower(), alpha)
+        U2 = Operator(c2).data
+        dev2 = float(np.linalg.norm(U2 - exp_pauli(hopstr(nq, i, j, o), alpha / 2), 2))
+        XH_OBS["hop"] = max(XH_OBS["hop"], dev2)
+        p2 = []
+        if dev2 > 1e-9:
+            p2.append(f"add_long_range_interaction(circ[{nq}], {i}, {j}, {o}, {alpha}): Operator differs from exp(-i a/2 {o}Z..Z{o}) by {dev2:.3e} "
+                      f"(distance {d})")
+        try:
+            impl2 = gens_tokens(read_generators(c2))
+        except ValueError as e:
+            impl2 = "unreadable: " + str(e).replace(" ", "_")
+        out.append({"req": f"lrigen {nq} {i} {j} {o} | {ib.frac(alpha)}", "impl": impl2, "oracle": ok(p2, f"dev {dev2:.1e}"),
+                    "kind": "hubbard-lri", "sig": f"hublri:{o}:{d}:{nq}", "nontrivial": True})
+    return out
+
+
+def run_hubgatespec(inp):
+    """spec tie: qiskit's matrices and qubit order are the explicit Kronecker forms `gateMat` uses for p, cp, cx, ry(±π/2), rx(±π/2)"""
+    rng = random.Random(inp["sub"])
+    from qiskit.circuit.library import CXGate
+    th = rng.uniform(-2, 2)
+    hs = 1 / math.sqrt(2)
+    P0 = np.array([[1, 0], [0, 0]], dtype=complex)
+    P1 = np.array([[0, 0], [0, 1]], dtype=complex)
+    ph = np.diag([1, np.exp(1j * th)])
+    one = [
+        ("p", PhaseGate(th), ph),
+        ("ry(+pi/2)", RYGate(math.pi / 2), hs * np.array([[1, -1], [1, 1]], dtype=complex)),
+        ("ry(-pi/2)", RYGate(-math.pi / 2), hs * np.array([[1, 1], [-1, 1]], dtype=complex)),
+        ("rx(+pi/2)", RXGate(math.pi / 2), hs * np.array([[1, -1j], [-1j, 1]], dtype=complex)),
+        ("rx(-pi/2)", RXGate(-math.pi / 2), hs * np.array([[1, 1j], [1j, 1]], dtype=complex)),
+    ]
+    nq = 3
+    for name, gate, m in one:
+        xh_spec(f"{name} matrix", float(np.abs(Operator(gate).data - m).max()), 1e-14)
+        q = rng.randrange(nq)
+        c = QuantumCircuit(nq)
+        c.append(gate, [q])
+        xh_spec(f"{name} on qubit {q} of {nq}", float(np.abs(Operator(c).data - kron_le({q: m}, nq)).max()), 1e-14)
+    for (a, b) in [(0, 1), (1, 0), (0, 2), (2, 0), (1, 2)]:
+        c = QuantumCircuit(nq)
+        c.append(CXGate(), [a, b])
+        xh_spec(f"cx({a},{b})", float(np.abs(Operator(c).data - (kron_le({a: P0}, nq) + kron_le({a: P1, b: PAULI['X']}, nq))).max()), 1e-14)
+        c = QuantumCircuit(nq)
+        c.append(CPhaseGate(th), [a, b])
+        xh_spec(f"cp({a},{b})", float(np.abs(Operator(c).data - (kron_le({a: P0}, nq) + kron_le({a: P1, b: ph}, nq))).max()), 1e-14)
+    return {"req": None, "impl": None, "oracle": None, "kind": "hubbard-gatespec", "sig": "hubgatespec", "nontrivial": False}
+
+
+def run_xh(inp):
+    k = inp["kind"]
+    if k == "hubgens":
+        return run_hubgens(inp)
+    if k == "hubderiv":
+        return run_hubderiv(inp)
+    if k == "hubhop":
+        return run_hubhop(inp)
+    if k == "hubgatespec":
+        return run_hubgatespec(inp)
+    raise ValueError(k)
+
+
 def gen_all(rng, tier):
     yield from gen(rng, tier)
     yield from gen_ext(rng, tier)
     yield from gen_xt(rng, tier)
+    yield from gen_xh(rng, tier)
 
 
 def run_all(inp):
+    if inp["kind"] in XH_KINDS:
+        res = run_xh(inp)
+        if "corpus_file" in inp:
+            res = [dict(r, kind="corpus:" + str(r.get("kind", inp["kind"]))) for r in (res if isinstance(res, list) else [res])]
+        return res
     if inp["kind"] in XT_KINDS:
         res = run_trotter_deriv(inp)
         if "corpus_file" in inp:
@@ -1833,7 +2323,11 @@ def spec_all():
                      {"name": "explicit constants of product_formula_second_order / trotter_converges on the real one-step and N-step unitaries of "
                               "the spin builders (|U - 1 + iG| <= e^s - 1 - s, |U - exp(-iG)| <= s^2 e^s, |U^N - exp(-iNG)| <= N s^2 e^s; G, s from the "
                               "real gate list); observed on this run: " + ", ".join(f"{k}={v:.3g}" for k, v in XT_OBS.items()),
-                      "ok": XTSPEC["bad"] == 0, "n": XTSPEC["n"], "worst_residual": XTSPEC["worst"], "detail": XTSPEC["detail"]}]
+                      "ok": XTSPEC["bad"] == 0, "n": XTSPEC["n"], "worst_residual": XTSPEC["worst"], "detail": XTSPEC["detail"]},
+                     {"name": "xh07: qiskit's p / cp / cx / ry(±pi/2) / rx(±pi/2) matrices and qubit order are the explicit Kronecker forms of "
+                              "`gateMat` (|0><0|_a ⊗ 1 + |1><1|_a ⊗ G_b, site = qubit); the harness's Jordan–Wigner matrix equals the docstring's "
+                              "Pauli form; observed on this run: " + ", ".join(f"{k}={v:.3g}" for k, v in XH_OBS.items()),
+                      "ok": XHSPEC["bad"] == 0, "n": XHSPEC["n"], "worst_residual": XHSPEC["worst"], "detail": XHSPEC["detail"]}]
 
 
 if __name__ == "__main__":
@@ -1847,10 +2341,17 @@ if __name__ == "__main__":
                  "extension xt07 (trotter-deriv): the real one-step circuit of all six builders (chains L=1..5 x both bc, grids <= 6 sites, "
                  "Hubbard <= 4 sites) -> gate list vs model step, generators summing to dt*H, derivative of the one-step unitary at dt=0 "
                  "against -iH (MPO.ising / MPO.heisenberg .to_matrix() or explicit Kronecker sum), N-step circuit = power of the step, "
-                 "N-step error ~ 1/N",
+                 "N-step error ~ 1/N; extension xh07 (hubbard-*): one real sub-step of both Hubbard builders (1-D L=1..4, 2-D up to 2x2 / 4x1; "
+                 "n = 1..3) read gate by gate / block by block as generators vs the model's fh1dGens / fh2dGens, their product vs the real "
+                 "unitary, their sum vs (dt/n) H_JW with H_JW built from Jordan–Wigner fermionic operators; derivative of the real one-step "
+                 "unitary against that H_JW; hopping block of the real add_hopping_term / add_long_range_interaction for distances 1..5 "
+                 "against exp(-i a/2 PZ..ZP)",
             trusted_base=["qiskit gate conventions (spec-tied each run)", "numpy/scipy dense linear algebra and qiskit Operator in the oracles",
                           "Trotter convergence is a theorem for the four spin builders (ising_trotter_converges, …); for the two "
-                          "Fermi–Hubbard builders the analytic limit is measured (step halving, derivative at dt = 0), not proved"],
+                          "Fermi–Hubbard builders the analytic limit is measured (step halving, derivative at dt = 0), not proved",
+                          "xh07: it is now a theorem for the two Fermi–Hubbard builders as well (hubbard1d/2d_step_consistent, "
+                          "hubbard1d/2d_trotter_converges, first-order bound); the second-order accuracy of the palindromic arrangement is "
+                          "measured only"],
             assumptions=["parameters handed to the model are the binary64 values the builders received, as exact rationals",
                          "±pi/2 of the basis-change rotations is compared symbolically"],
             spec=spec_all)
